@@ -16,8 +16,10 @@ import (
 
 	asfake "github.com/pingcap/advanced-statefulset/client/client/clientset/versioned/fake"
 	appsv1 "k8s.io/api/apps/v1"
+	apierrors "k8s.io/apimachinery/pkg/api/errors"
 	metav1 "k8s.io/apimachinery/pkg/apis/meta/v1"
 	"k8s.io/apimachinery/pkg/runtime"
+	"k8s.io/apimachinery/pkg/runtime/schema"
 	"k8s.io/client-go/kubernetes/fake"
 	core "k8s.io/client-go/testing"
 )
@@ -25,7 +27,8 @@ import (
 type upCase struct {
 	Revisions int      `json:"revisions"`
 	Existing  bool     `json:"advanced_set_exists"`
-	FailAt    int      `json:"fail_at_call"` // -1: none
+	FailAt    int      `json:"fail_at_call"`        // -1: none
+	FailKind  string   `json:"fail_kind,omitempty"` // generic | conflict | notfound | exists
 	Calls     []string `json:"calls,omitempty"`
 	Failure   string   `json:"failure,omitempty"`
 }
@@ -76,6 +79,15 @@ func upJudge(c *upCase) string {
 			if idx == c.FailAt {
 				failed = true
 				calls = append(calls, desc+" FAILS")
+				gr := schema.GroupResource{Group: a.GetResource().Group, Resource: a.GetResource().Resource}
+				switch c.FailKind {
+				case "conflict":
+					return true, nil, apierrors.NewConflict(gr, "x", errors.New("injected"))
+				case "notfound":
+					return true, nil, apierrors.NewNotFound(gr, "x")
+				case "exists":
+					return true, nil, apierrors.NewAlreadyExists(gr, "x")
+				}
 				return true, nil, errors.New("injected")
 			}
 			calls = append(calls, desc)
@@ -86,12 +98,21 @@ func upJudge(c *upCase) string {
 	asc.PrependReactor("*", "*", hook("asts"))
 	got, err := Upgrade(context.TODO(), kube, asc, sts)
 	c.Calls = calls
+	toleratedNotFound := c.FailKind == "notfound" && len(calls) > 0 && contains(calls[len(calls)-1], "kube:delete statefulsets") && contains(calls[len(calls)-1], "FAILS")
+	getNotFound := c.FailKind == "notfound" && func() bool {
+		for _, cl := range calls {
+			if contains(cl, "asts:get statefulsets") && contains(cl, "FAILS") {
+				return true
+			}
+		}
+		return false
+	}()
 	// judge
 	afterFail := false
 	relabelled := 0
 	astsWritten, statusWritten := false, false
 	for _, call := range calls {
-		if afterFail {
+		if afterFail && !getNotFound {
 			return "an API call was issued after one failed: " + call
 		}
 		if len(call) > 6 && call[len(call)-5:] == "FAILS" {
@@ -122,7 +143,7 @@ func upJudge(c *upCase) string {
 			return "Upgrade touched pods or claims: " + call
 		}
 	}
-	if failed && err == nil {
+	if failed && err == nil && !toleratedNotFound && !getNotFound {
 		return "an API call failed but Upgrade reported success"
 	}
 	if !failed && err != nil {
@@ -183,28 +204,30 @@ func TestReplayUpgrade(t *testing.T) {
 	for _, revs := range []int{0, 1, 2, 3} {
 		for _, existing := range []bool{false, true} {
 			for failAt := -1; failAt < revs+6; failAt++ {
-				if found >= 3 {
-					break
+				for _, kind := range []string{"generic", "conflict", "notfound", "exists"} {
+					if found >= 3 || (failAt == -1 && kind != "generic") {
+						continue
+					}
+					tried++
+					c := &upCase{Revisions: revs, Existing: existing, FailAt: failAt, FailKind: kind}
+					msg := upJudge(c)
+					key := msg
+					if len(key) > 30 {
+						key = key[:30]
+					}
+					if msg == "" || seen[key] {
+						continue
+					}
+					seen[key] = true
+					c.Failure = msg
+					out, _ := json.Marshal(c)
+					fmt.Printf("REPRODUCED %s\n", out)
+					found++
 				}
-				tried++
-				c := &upCase{Revisions: revs, Existing: existing, FailAt: failAt}
-				msg := upJudge(c)
-				key := msg
-				if len(key) > 30 {
-					key = key[:30]
-				}
-				if msg == "" || seen[key] {
-					continue
-				}
-				seen[key] = true
-				c.Failure = msg
-				out, _ := json.Marshal(c)
-				fmt.Printf("REPRODUCED %s\n", out)
-				found++
 			}
 		}
 	}
 	if found == 0 {
-		fmt.Printf("NOT-REPRODUCED bounded search: %d runs of Upgrade (0..3 revisions x existing/new x a failure injected at each call)\n", tried)
+		fmt.Printf("NOT-REPRODUCED bounded search: %d runs of Upgrade (0..3 revisions x existing/new x a failure of each kind (generic, conflict, not-found, already-exists) injected at each call)\n", tried)
 	}
 }
